@@ -694,6 +694,11 @@ class Step(Node):
         # instead of being silently skipped by `REPLACE`'s implicit conflict-delete
         # (which never fires delete triggers).
         self.db.execute("DELETE FROM step WHERE node = :node", {"node": self.i})
+        # A re-created step starts without recorded environment variables:
+        # `Trellis.create()` cuts its sources, and the declared variables are added again
+        # by `define_step()`. Without this, a variable that the new definition dropped
+        # would remain a dependency of the step.
+        self.db.execute("DELETE FROM env_var WHERE node = :node", {"node": self.i})
 
         # The `step_hash`/`step_outcome` satellite rows are untouched
         # by either `DELETE` or `INSERT`, since both only ever reference `node`, not `step`,
